@@ -88,6 +88,79 @@ theorem pnl_spot_inv (q : Q) (e : E) (p : Position) (pn : Nat) (u : Integer)
       exact ⟨hout, this⟩
 
 
+/-! ### the engine's own case distinction -/
+
+theorem id_absurd {P : Prop} {msg m0 : SubMsg} {k : Nat} (hm : [m0] = [msg]) (hid : msg.id = k) (hne : m0.id ≠ k) : P := by
+  have hm' := (List.cons.inj hm).1
+  subst hm'
+  exact absurd hid hne
+
+/-- `open_position`, the branch condition behind the dispatched message: a reduce (`REPLY_DECREASE`) is
+    dispatched only when the position's spot notional exceeds the order's notional `m·l/D`, a reversal
+    (`REPLY_REVERSE`) only when it does not -/
+theorem openPosition_branch (q : Q) (e : E) (env : Env) (s : Nat) (f : Funds) (v : Nat) (side : Side) (m l b : Nat) :
+    Post (fun r => ∃ pn u, positionNotionalPnl q e (getPosition env e v s side) .spot = .ok (pn, u)
+        ∧ (∀ msg, r.2 = [msg] → msg.id = REPLY_DECREASE → pn > m * l / e.cfg.decimals)
+        ∧ (∀ msg, r.2 = [msg] → msg.id = REPLY_REVERSE → ¬ pn > m * l / e.cfg.decimals))
+      (openPosition q e env s f v side m l b) := by
+  unfold openPosition
+  walk [(
+    have h1 := (cmul_ok _ _ _).1 ‹cmul m l = Except.ok _›
+    have h2 := (cdiv_ok _ _ _).1 ‹cdiv _ e.cfg.decimals = Except.ok _›
+    obtain ⟨_, rfl⟩ := h1
+    obtain ⟨_, rfl⟩ := h2
+    first
+      | (have hgt := ‹_ > _›
+         refine ⟨_, ?_, ?_, fun _ _ _ => hgt, fun msg hm hid => id_absurd hm hid (Nat.ne_of_beq_eq_false rfl)⟩
+         rotate_left
+         exact EngineGuards.unwrap_ok _ _ (by assumption))
+      | (have hng := ‹¬ _ > _›
+         refine ⟨_, ?_, ?_, fun msg hm hid => id_absurd hm hid (Nat.ne_of_beq_eq_false rfl), fun _ _ _ => hng⟩
+         rotate_left
+         exact EngineGuards.unwrap_ok _ _ (by assumption))
+      | exact ⟨_, _, EngineGuards.unwrap_ok _ _ ‹unwrap (positionNotionalPnl q e _ PnlOpt.spot) = Except.ok (_, _)›,
+          fun msg hm hid => id_absurd hm hid (Nat.ne_of_beq_eq_false rfl),
+          fun msg hm hid => id_absurd hm hid (Nat.ne_of_beq_eq_false rfl)⟩)]
+
+/-- `|a − b|` on naturals: what `reverse_position_reply` has left of the order after closing the position -/
+def adiff (a b : Nat) : Nat := if a > b then a - b else b - a
+
+/-- `reverse_position_reply` closes without re-opening exactly when what is left of the order is worth less
+    than one unit of margin (`|openNotional − output| / leverage = 0`) -/
+theorem rev_branch_inv (q : Q) (e : E) (env : Env) (o : Nat) (sw : TmpSwap) (hs : e.tmpSwap = some sw) :
+    Post (fun r => (r.1.tmpSwap = none ↔ adiff sw.openNotional o / sw.leverage = 0))
+      (reversePositionReply q e env o) := by
+  unfold reversePositionReply
+  rw [hs]
+  walk [(
+    have hd := (cdiv_ok _ _ _).1 ‹cdiv _ sw.leverage = Except.ok _›
+    obtain ⟨_, rfl⟩ := hd
+    first
+      | exact ⟨fun _ => by assumption, fun _ => rfl⟩
+      | (refine ⟨fun hh => ?_, fun hh => ?_⟩
+         · have hh' : some _ = (none : Option TmpSwap) := hh
+           cases hh'
+         · have hn : ¬ (_ / _ = 0) := ‹¬ _ = 0›
+           exact absurd hh hn))]
+
+/-- the spot valuation reads the vAMMs only -/
+theorem pnl_spot_congr (q q' : Q) (e : E) (p : Position)
+    (h : ∀ v d a, q.outputAmount v d a = q'.outputAmount v d a) :
+    positionNotionalPnl q e p .spot = positionNotionalPnl q' e p .spot := by
+  unfold positionNotionalPnl
+  simp only [h]
+
+/-- attaching the funds changes the ledger and the log only: the world `execute` runs in answers the vAMM
+    queries like the pre-state at the transaction's block -/
+theorem start_outputAmount {w w1 : World} {env : Env} (hst : Start w w1 env) (v : Nat) (d : Direction) (a : Nat) :
+    w1.q.outputAmount v d a = ({ w with env := env } : World).q.outputAmount v d a := by
+  have hv : w1.vammE v = World.vammE ({ w with env := env } : World) v := by
+    unfold World.vammE World.vamm?
+    rw [hst.vamms]
+  show (do let x ← w1.vammE v; Vamm.queryOutputAmount x d a)
+    = (do let x ← World.vammE ({ w with env := env } : World) v; Vamm.queryOutputAmount x d a)
+  rw [hv]
+
 /-! ### small facts about collateral messages -/
 
 theorem execSubs_single_err (fuel : Nat) (w w' : World) (m : SubMsg) (hr : m.replyOn = .error)
@@ -318,24 +391,6 @@ theorem fundingOwed_get (env : Env) (e : E) (v t : Nat) (side : Side) :
     have : Position.default.size.toInt = 0 := MirrorP.default_size
     rw [this, Int.mul_zero, Int.mul_zero]
 
-/-- a zero-size position passes the final margin-ratio guard of `update_position_reply` only when the
-    maintenance ratio is zero -/
-theorem ratio_zero_size (q : Q) (e' : E) (v t mmr : Nat) (r : Integer)
-    (hq : queryMarginRatio q e' v t = .ok r) (hlt : Integer.lt r (Integer.newPositive mmr) = false)
-    (hz : (readPosition e' v t).size.value = 0) : mmr = 0 := by
-  unfold queryMarginRatio at hq
-  simp only [] at hq
-  have hz' : (readPosition e' v t).size.isZero = true := by simp [Integer.isZero, hz]
-  rw [if_pos hz'] at hq
-  injection hq with hq
-  subst hq
-  unfold Integer.lt at hlt
-  have : ¬ (Integer.cmp Integer.zero (Integer.newPositive mmr) = .lt) := by
-    intro hc; rw [hc] at hlt; simp at hlt
-  rw [C19.cmp_lt_iff, C19.toInt_newPositive] at this
-  have h0 : Integer.zero.toInt = 0 := rfl
-  omega
-
 /-! #### the transfer list -/
 
 theorem flow_nil (a b : Nat) : W.flow [] a b = 0 := rfl
@@ -371,12 +426,13 @@ theorem reversePositionReply_maps (q : Q) (e : E) (env : Env) (o : Nat) :
   unfold reversePositionReply
   walk [rfl]
 
-/-- what the trader is due when a reversal closes the position: margin + PnL at the executed price − funding -/
-def equityOf (w w' : World) (v s : Nat) : Int :=
+/-- what the trader is due when a reversal closes the position for `out`: margin + PnL at the executed
+    price − funding -/
+def equityOf (w : World) (v s out : Nat) : Int :=
   ((readPosition w.engine v s).margin : Int)
     + (match (readPosition w.engine v s).direction with
-       | .addToAmm => ((W.quoteOf w' v - W.quoteOf w v).natAbs : Int) - (readPosition w.engine v s).notional
-       | .removeFromAmm => ((readPosition w.engine v s).notional : Int) - ((W.quoteOf w' v - W.quoteOf w v).natAbs : Int))
+       | .addToAmm => (out : Int) - (readPosition w.engine v s).notional
+       | .removeFromAmm => ((readPosition w.engine v s).notional : Int) - (out : Int))
     - EngineMoney.fundingOwed w.engine (readPosition w.engine v s)
 
 /-- the margin an increase must leave: old margin + ⌊N·D/L⌋ − funding owed -/
@@ -385,56 +441,74 @@ def wantOf (w : World) (v s m l : Nat) : Int :=
     + ((m * l / w.engine.cfg.decimals * w.engine.cfg.decimals / l : Nat) : Int)
     - EngineMoney.fundingOwed w.engine (readPosition w.engine v s)
 
-theorem getOutputPrice_zero (D : Nat) (d : Direction) (qR bR qo : Nat)
-    (h : Vamm.getOutputPrice D d 0 qR bR = .ok qo) : qo = 0 := by
-  unfold Vamm.getOutputPrice at h
-  rw [if_pos rfl] at h
-  injection h with h
-  exact h.symm
-
+/-- a successful OpenPosition, by the engine's own case distinction.  `pn` is the position's spot notional as
+    the property evaluates it (pre-state at the transaction's block — equal to the engine's evaluation after
+    funds attachment, `start_outputAmount`):
+    * increase (record flat or on the order's side): checkpoint moved, margin formula;
+    * reduce (`pn > N`): checkpoint moved;
+    * reversal (`pn ≤ N`): the position is closed for `qo` = the vAMM's quote of the whole size in the pre-state;
+      close-only exactly when `|N − qo| / l = 0`, then the trader is paid the equity; otherwise the rest is
+      re-opened and the checkpoint moved. -/
 theorem open_core (w w' : World) (env : Env) (s : Nat) (f : Funds) (v : Nat) (side : Side) (m l b : Nat)
     (h : applyTx w env s f (.engine (.openPosition v side m l b)) = .ok w') :
-    (((getPosition env w.engine v s side).size.isZero = true
-        ∨ (getPosition env w.engine v s side).direction = sideToDirection side)
-      ∧ (readPosition w'.engine v s).chk = latestCum w.engine v
-      ∧ (0 ≤ wantOf w v s m l → ((readPosition w'.engine v s).margin : Int) = wantOf w v s m l)
-      ∧ (wantOf w v s m l < 0 → (readPosition w'.engine v s).margin = 0)
-      ∧ (w.engine.cfg.mmr ≠ 0 → (readPosition w'.engine v s).size.value ≠ 0))
-    ∨ ((getPosition env w.engine v s side).direction ≠ sideToDirection side
-      ∧ (readPosition w'.engine v s).chk = latestCum w.engine v
-      ∧ (w.engine.cfg.mmr ≠ 0 → (readPosition w'.engine v s).size.value ≠ 0))
-    ∨ ((getPosition env w.engine v s side).direction ≠ sideToDirection side
-      ∧ (readPosition w'.engine v s).size.value = 0
-      ∧ (SenderOutside w s →
-          equityOf w w' v s < 0 ∨ W.flow w'.log ENGINE s = equityOf w w' v s)) := by
+    ∃ (x : Vamm.V) (pn : Nat) (u : Integer), w.vamm? v = some x
+      ∧ positionNotionalPnl ({ w with env := env } : World).q w.engine (getPosition env w.engine v s side) .spot
+          = .ok (pn, u)
+      ∧ ((((getPosition env w.engine v s side).size.isZero = true
+            ∨ (getPosition env w.engine v s side).direction = sideToDirection side)
+          ∧ (readPosition w'.engine v s).chk = latestCum w.engine v
+          ∧ (0 ≤ wantOf w v s m l → ((readPosition w'.engine v s).margin : Int) = wantOf w v s m l)
+          ∧ (wantOf w v s m l < 0 → (readPosition w'.engine v s).margin = 0))
+        ∨ ((¬ (getPosition env w.engine v s side).size.isZero = true
+              ∧ (getPosition env w.engine v s side).direction ≠ sideToDirection side)
+          ∧ pn > m * l / w.engine.cfg.decimals
+          ∧ (readPosition w'.engine v s).chk = latestCum w.engine v)
+        ∨ ((¬ (getPosition env w.engine v s side).size.isZero = true
+              ∧ (getPosition env w.engine v s side).direction ≠ sideToDirection side)
+          ∧ ¬ pn > m * l / w.engine.cfg.decimals
+          ∧ ∃ qo, Vamm.queryOutputAmount x (readPosition w.engine v s).direction
+                    (readPosition w.engine v s).size.value = .ok qo
+            ∧ ((adiff (m * l / w.engine.cfg.decimals) qo / l = 0
+                  ∧ (SenderOutside w s →
+                      equityOf w v s qo < 0 ∨ W.flow w'.log ENGINE s = equityOf w v s qo))
+               ∨ (adiff (m * l / w.engine.cfg.decimals) qo / l ≠ 0
+                  ∧ (readPosition w'.engine v s).chk = latestCum w.engine v)))) := by
   obtain ⟨w1, e1, x, sw, msgs, hst, hlog1, hxv, hex, hsw, sv, st, ss, hpos, hcfg, hcase⟩ :=
-    open_flow w w' env s f v side m l b h
+    open_flow_msgs w w' env s f v side m l b h
   obtain ⟨hmaps, _, _, hD0, pn, u, hpnl, htmp, _⟩ := openPosition_inv2 _ _ _ _ _ _ _ _ _ _ _ hex
-  dsimp only at hmaps htmp
-  have hswe : sw = ⟨v, s, side, m, l, m * l / w.engine.cfg.decimals, pn, u, Integer.zero, false⟩ := by
+  obtain ⟨pn', u', hpnl', hdec, hrev⟩ := openPosition_branch _ _ _ _ _ _ _ _ _ _ _ hex
+  dsimp only at hmaps htmp hdec hrev
+  have hpp : pn' = pn := by
+    have := hpnl'.symm.trans hpnl
+    injection this with this
+    injection this
+  subst hpp
+  have hpnlW : positionNotionalPnl ({ w with env := env } : World).q w.engine
+      (getPosition env w.engine v s side) .spot = .ok (pn', u) := by
+    rw [← pnl_spot_congr _ _ _ _ (start_outputAmount hst)]
+    exact hpnl
+  refine ⟨x, pn', u, hxv, hpnlW, ?_⟩
+  have hswe : sw = ⟨v, s, side, m, l, m * l / w.engine.cfg.decimals, pn', u, Integer.zero, false⟩ := by
     have := hsw.symm.trans htmp
     injection this
   have hcum1 : latestCum e1 v = latestCum w.engine v := latestCum_congr hmaps v
   have hg1 : getPosition env e1 v s side = getPosition env w.engine v s side := getPosition_congr hpos env v s side
-  -- facts shared by every path that ends in `update_position_reply`
+  -- the checkpoint after any path that ends in `update_position_reply`
   have hupr : ∀ (q : Q) (e e' : E) (i o id : Nat) (subs : List SubMsg) (sw0 : TmpSwap),
-      e.tmpSwap = some sw0 → sw0.vamm = v → sw0.trader = s → e.vammMaps = w.engine.vammMaps → e.cfg = w.engine.cfg →
+      e.tmpSwap = some sw0 → sw0.vamm = v → sw0.trader = s → e.vammMaps = w.engine.vammMaps →
       updatePositionReply q e env i o id = .ok (e', subs) → w'.engine = e' →
-      (readPosition w'.engine v s).chk = latestCum w.engine v
-      ∧ (w.engine.cfg.mmr ≠ 0 → (readPosition w'.engine v s).size.value ≠ 0) := by
-    intro q e e' i o id subs sw0 hs0 hv0 ht0 hm0 hc0 hr he'
-    obtain ⟨r, hq, hlt, _, hchk⟩ := EngineMoney.updatePositionReply_ratio _ _ _ _ _ _ _ _ sw0 hs0 hr
-    rw [hv0, ht0] at hq hchk
-    rw [he']
-    refine ⟨by rw [hchk]; exact latestCum_congr hm0 v, fun hm hz => hm ?_⟩
-    rw [hc0] at hlt
-    exact ratio_zero_size _ _ _ _ _ _ hq hlt hz
-  rcases hcase with ⟨id, hid, x', bo, w2, e3, subs3, hswap, hrep, _, he3, _⟩
-      | ⟨⟨hnzp, hdir⟩, x1, qo, w2, e3, subs3, hswap, hrep, hcase2⟩
-  · obtain ⟨hc, hz⟩ := hupr _ _ _ _ _ _ _ sw hsw sv st hmaps hcfg hrep he3
-    rcases hid with ⟨rfl, hdir⟩ | ⟨rfl, _, hdir⟩
+      (readPosition w'.engine v s).chk = latestCum w.engine v := by
+    intro q e e' i o id subs sw0 hs0 hv0 ht0 hm0 hr he'
+    obtain ⟨r, _, _, _, hchk⟩ := EngineMoney.updatePositionReply_ratio _ _ _ _ _ _ _ _ sw0 hs0 hr
+    rw [hv0, ht0] at hchk
+    rw [he', hchk]
+    exact latestCum_congr hm0 v
+  rcases hcase with ⟨id, hid, hmsg, x', bo, w2, e3, subs3, hswap, hrep, _, he3, _⟩
+      | ⟨⟨hnzp, hdir⟩, hmsg, x1, qo, w2, e3, subs3, hswap, hrep, hcase2⟩
+  · have hc := hupr _ _ _ _ _ _ _ sw hsw sv st hmaps hrep he3
+    rcases hid with ⟨rfl, hdir⟩ | ⟨rfl, hnzp, hdir⟩
     · left
-      refine ⟨hdir, hc, ?_, ?_, hz⟩
+      refine ⟨hdir, hc, ?_, ?_⟩
       all_goals
         obtain ⟨y, sm, rm, hy, hsm, hrm, p', hp', pv, pt, pmg⟩ := upr_inc_margin _ _ _ _ _ sw hsw _ hrep
         dsimp only at hp' pv pt pmg
@@ -456,40 +530,44 @@ theorem open_core (w w' : World) (env : Env) (s : Nat) (f : Funds) (v : Nat) (si
       · exact (hge (by omega)).1.trans (by omega)
       · exact (hlt (by omega)).1
     · right; left
-      exact ⟨hdir, hc, hz⟩
-  · have hmaps3 := reversePositionReply_maps _ _ _ _ _ hrep
-    have hcfg3 := EngineGuards.reversePositionReply_cfg _ _ _ _ _ hrep
-    dsimp only at hmaps3 hcfg3
+      exact ⟨⟨hnzp, hdir⟩, hdec _ hmsg rfl, hc⟩
+  · right; right
+    refine ⟨⟨hnzp, hdir⟩, hrev _ hmsg rfl, ?_⟩
+    have hmaps3 := reversePositionReply_maps _ _ _ _ _ hrep
+    dsimp only at hmaps3
+    -- the stored record is read as it is (its vamm field is not 0, else the order would be an increase)
+    have hdir' := hdir
+    rw [MirrorP.getPosition_direction] at hdir'
+    have hvz : (readPosition w.engine v s).vamm ≠ 0 := by
+      intro hz
+      unfold MirrorP.gdir at hdir'
+      rw [if_pos hz] at hdir'
+      exact hdir' rfl
+    have hgp : getPosition env w.engine v s side = readPosition w.engine v s := by
+      unfold getPosition
+      simp only []
+      rw [if_neg hvz]
+    rw [hgp] at hswap hpnl hnzp
+    -- the vAMM side: the position is sold / bought back for the pre-state's quote of the whole size
+    obtain ⟨q0, hq0, hu0, ho0, _⟩ := C17.swapOutput_inv _ _ _ _ _ _ _ _ hswap
+    injection ho0 with _ hqo _
+    subst hqo
+    refine ⟨qo, hq0, ?_⟩
+    -- close-only or re-open, by `|N − qo| / l`
+    have hbr := rev_branch_inv _ _ _ _ sw hsw _ hrep
+    rw [hswe] at hbr
+    dsimp only at hbr
     rcases hcase2 with ⟨hnone, _, he3, hv1, hlog⟩
         | ⟨fm, sw', x2, bo2, w4, e5, subs5, _, _, hsw', sv', st', ss', _, hrep5, _, he5, _⟩
     · -- the position is closed
-      right; right
-      obtain ⟨p', hp', pv, pt, psz, _⟩ := MirrorP.reversePositionReply_eff _ _ _ _ sw hsw _ hrep
-      dsimp only at hp' pv pt psz
-      rw [sv, st, ss] at pv pt
-      have hk := EngineMoney.getPosition_key env e1 v s side
-      have hread3 : readPosition w'.engine v s = p' := by
-        rw [he3]; exact read_of_store e1 e3 p' v s hp' (pv.trans hk.1) (pt.trans hk.2)
-      refine ⟨hdir, by rw [hread3]; have := C19.toInt_natAbs p'.size; omega, fun hso => ?_⟩
+      left
+      refine ⟨hbr.1 hnone, fun hso => ?_⟩
       obtain ⟨rm0, pm, mg, fm, sp, tl, hrm0, hpm, hmg, hfm, hsubs⟩ :=
         rev_closed_inv _ _ _ _ sw hsw _ hrep hnone
       dsimp only at hsubs
       rw [hswe] at hrm0 hpm hmg hfm hsubs
       dsimp only at hrm0 hpm hmg hfm hsubs
-      rw [hg1] at hrm0 hpm
-      -- the stored record is read as it is (its vamm field is not 0, else the order would be an increase)
-      rw [MirrorP.getPosition_direction] at hdir
-      have hgd := MirrorP.gdir_ne hdir
-      have hvz : (readPosition w.engine v s).vamm ≠ 0 := by
-        intro hz
-        unfold MirrorP.gdir at hdir
-        rw [if_pos hz] at hdir
-        exact hdir rfl
-      have hgp : getPosition env w.engine v s side = readPosition w.engine v s := by
-        unfold getPosition
-        simp only []
-        rw [if_neg hvz]
-      rw [hgp] at hrm0 hpm hswap hpnl hnzp
+      rw [hg1, hgp] at hrm0 hpm
       -- amounts
       have e1' := (EngineMoney.calcRemainMargin_spec _ _ _ _ hrm0).1
       rw [fundingOwed_congr hmaps hcfg] at e1'
@@ -497,43 +575,26 @@ theorem open_core (w w' : World) (env : Env) (s : Nat) (f : Funds) (v : Nat) (si
       rw [C19.toInt_newNegative] at e2'
       have e3' := (C19.checkedSub_ok _ _ _ hmg).1
       have hmgv := C19.toInt_natAbs mg
-      -- the vAMM side: quote moved = the quoted value of the whole position
-      obtain ⟨q0, hq0, hu0, ho0, _⟩ := C17.swapOutput_inv _ _ _ _ _ _ _ _ hswap
-      injection ho0 with _ hqo _
-      subst hqo
-      have hqm : ((W.quoteOf w' v - W.quoteOf w v).natAbs : Int) = (qo : Int) := by
-        have hq : W.quoteOf w v = x.st.quote := by unfold W.quoteOf; rw [hxv]
-        have hq' : W.quoteOf w' v = x1.st.quote := by unfold W.quoteOf; rw [hv1]
-        rw [hq, hq']
-        cases hd : (readPosition w.engine v s).direction with
-        | addToAmm =>
-          rw [hd] at hu0
-          obtain ⟨_, h2, h3⟩ := C17.updateReserve_remove _ _ _ _ _ _ hu0
-          omega
-        | removeFromAmm =>
-          rw [hd] at hu0
-          obtain ⟨h1, _, _⟩ := C17.updateReserve_add _ _ _ _ _ _ hu0
-          omega
       have hupnl : u.toInt = (match (readPosition w.engine v s).direction with
           | .addToAmm => (qo : Int) - (readPosition w.engine v s).notional
           | .removeFromAmm => ((readPosition w.engine v s).notional : Int) - qo) := by
-        obtain ⟨hz, hnz⟩ := pnl_spot_inv _ _ _ _ _ hpnl
+        obtain ⟨_, hnz⟩ := pnl_spot_inv _ _ _ _ _ hpnl
         -- (the reversal path is only taken for a record of non-zero size)
         have hsz : (readPosition w.engine v s).size.value ≠ 0 := by
           intro h0
           exact hnzp (by simp [Integer.isZero, h0])
-        · obtain ⟨hout, hu⟩ := hnz hsz
-          obtain ⟨x0, hx0, hqa⟩ := MirrorP.q_outputAmount _ _ _ _ _ hout
-          have hvv := (MirrorP.read_found w.engine v s hsz).1
-          rw [hvv, hst.vamm? v, hxv] at hx0
-          cases hx0
-          rw [hq0] at hqa
-          injection hqa with hqa
-          subst hqa
-          exact hu
-      have heq : equityOf w w' v s = - mg.toInt := by
+        obtain ⟨hout, hu⟩ := hnz hsz
+        obtain ⟨x0, hx0, hqa⟩ := MirrorP.q_outputAmount _ _ _ _ _ hout
+        have hvv := (MirrorP.read_found w.engine v s hsz).1
+        rw [hvv, hst.vamm? v, hxv] at hx0
+        cases hx0
+        rw [hq0] at hqa
+        injection hqa with hqa
+        subst hqa
+        exact hu
+      have heq : equityOf w v s qo = - mg.toInt := by
         unfold equityOf
-        rw [hqm, ← hupnl]
+        rw [← hupnl]
         omega
       -- the transfer list
       have hflow : W.flow w'.log ENGINE s = (mg.value : Int) := by
@@ -558,17 +619,18 @@ theorem open_core (w w' : World) (env : Env) (s : Nat) (f : Funds) (v : Nat) (si
               rw [hy, collEntry_transferFromMsg] at hc
               exact hso.2.2 hc.2.symm
             · cases hy
-      by_cases hneg : equityOf w w' v s < 0
+      by_cases hneg : equityOf w v s qo < 0
       · exact Or.inl hneg
       · right
         rw [hflow, heq]
         omega
     · -- the remainder is re-opened on the other side
-      right; left
+      right
       have hm5 : e3.vammMaps = w.engine.vammMaps := hmaps3.trans hmaps
-      have hc5 : e3.cfg = w.engine.cfg := hcfg3.trans hcfg
-      obtain ⟨hc, hz⟩ := hupr _ _ _ _ _ _ _ sw' hsw' sv' st' hm5 hc5 hrep5 he5
-      exact ⟨hdir, hc, hz⟩
+      refine ⟨fun hz => ?_, hupr _ _ _ _ _ _ _ sw' hsw' sv' st' hm5 hrep5 he5⟩
+      have := hbr.2 hz
+      rw [hsw'] at this
+      cases this
 
 
 /-! ### the check -/
@@ -585,43 +647,90 @@ theorem mem_chk {c : Bool} {tag t : String} (h : t ∈ W.chk c tag) : t = tag :=
   · cases h
   · simpa using h
 
-/-- the spec's `sameSide` test forces the increase path of the model -/
-theorem sameSide_dir (w : World) (env : Env) (s v : Nat) (side : Side)
-    (h : (!W.hasPos w v s || ((readPosition w.engine v s).direction == sideToDirection side)) = true) :
-    (getPosition env w.engine v s side).direction = sideToDirection side := by
-  rw [MirrorP.getPosition_direction]
-  unfold MirrorP.gdir
-  split
-  · rfl
-  · rename_i hvz
-    have h' : W.hasPos w v s = false ∨ (readPosition w.engine v s).direction = sideToDirection side := by
-      simpa using h
-    rcases h' with h1 | h1
-    · rw [hasPos_false_read w v s h1] at hvz
-      exact absurd rfl hvz
+/-- the spec's `sameSide` test (record absent, of size zero, or on the order's side) is the engine's
+    increase test -/
+theorem sameSide_inc (w : World) (env : Env) (s v : Nat) (side : Side)
+    (h : (!W.hasPos w v s || (readPosition w.engine v s).size.isZero
+            || ((readPosition w.engine v s).direction == sideToDirection side)) = true) :
+    (getPosition env w.engine v s side).size.isZero = true
+      ∨ (getPosition env w.engine v s side).direction = sideToDirection side := by
+  have h' : (W.hasPos w v s = false ∨ (readPosition w.engine v s).size.isZero = true)
+      ∨ (readPosition w.engine v s).direction = sideToDirection side := by
+    simpa using h
+  rcases h' with (h1 | h1) | h1
+  · right
+    rw [MirrorP.getPosition_direction]
+    unfold MirrorP.gdir
+    rw [if_pos (by rw [hasPos_false_read w v s h1]; rfl)]
+  · left
+    rw [MirrorP.getPosition_size]
+    exact h1
+  · right
+    rw [MirrorP.getPosition_direction]
+    unfold MirrorP.gdir
+    split
+    · rfl
     · exact h1
 
+/-- … and when it fails the stored record has non-zero size, lies on the other side, and is a record of
+    this vAMM -/
+theorem not_sameSide (w : World) (s v : Nat) (side : Side)
+    (h : ¬ (!W.hasPos w v s || (readPosition w.engine v s).size.isZero
+            || ((readPosition w.engine v s).direction == sideToDirection side)) = true) :
+    (readPosition w.engine v s).vamm = v
+      ∧ ¬ (readPosition w.engine v s).size.isZero = true
+      ∧ (readPosition w.engine v s).direction ≠ sideToDirection side := by
+  have h' : ¬ ((W.hasPos w v s = false ∨ (readPosition w.engine v s).size.isZero = true)
+      ∨ (readPosition w.engine v s).direction = sideToDirection side) := by
+    simpa using h
+  have hz : ¬ (readPosition w.engine v s).size.isZero = true := fun hh => h' (Or.inl (Or.inr hh))
+  have hd : (readPosition w.engine v s).direction ≠ sideToDirection side := fun hh => h' (Or.inr hh)
+  have hsz : ¬ (readPosition w.engine v s).size.value = 0 := by
+    intro h0
+    exact hz (by simp [Integer.isZero, h0])
+  exact ⟨(MirrorP.read_found w.engine v s hsz).1, hz, hd⟩
+
+theorem ite3_nil (c1 c2 : Prop) [Decidable c1] [Decidable c2] (B : List String) :
+    (if c1 then [] else if c2 then B else []) = [] ∨ (if c1 then [] else if c2 then B else []) = B := by
+  by_cases h1 : c1
+  · rw [if_pos h1]; exact Or.inl rfl
+  · rw [if_neg h1]
+    by_cases h2 : c2
+    · rw [if_pos h2]; exact Or.inr rfl
+    · rw [if_neg h2]; exact Or.inl rfl
+
+/-- **invariant** used by `sat_C11` (OpenPosition, clause `funding-skipped-when-closing-by-reversal`): no
+    vAMM lives at address 0, the engine's "no record" sentinel (`Mirror.NoZeroVamm`, a conjunct of
+    `Mirror.Inv`).  A record stored under vAMM address 0 is taken by `get_position` for an absent one: the
+    engine then treats an order against it as an increase whatever its size and direction, while the
+    property — which reads the stored record — classifies it as a reduce or a reversal
+    (`SatEWitness.c11_needs_noZeroVamm`). -/
+def NoZeroVamm (w : World) : Prop := w.vamm? 0 = none
+
 /-- the check of a successful OpenPosition is empty, or reduces to the single clause
-    `funding-skipped-when-closing-by-reversal` for a position that ended at size zero -/
+    `funding-skipped-when-closing-by-reversal` of a close-only reversal, which holds on a real vAMM address for
+    a sender outside the pools -/
 theorem check_open_split (w w' : World) (env : Env) (s : Nat) (f : Funds) (v : Nat) (side : Side) (m l b : Nat)
     (h : applyTx w env s f (.engine (.openPosition v side m l b)) = .ok w') :
     Spec.C11.check (okStep w w' env s f (.engine (.openPosition v side m l b))) = []
-    ∨ ((readPosition w'.engine v s).size.value = 0
-        ∧ Spec.C11.check (okStep w w' env s f (.engine (.openPosition v side m l b)))
-            = W.chk (decide (equityOf w w' v s < 0) || W.flow w'.log ENGINE s == equityOf w w' v s)
-                "funding-skipped-when-closing-by-reversal") := by
-  have hcore := open_core w w' env s f v side m l b h
-  simp only [Spec.C11.check, W.engineMsg, okStep, W.pos, W.quoteMoved, fundingOwed_spec,
-    Bool.not_true, Bool.false_eq_true, ↓reduceIte]
+    ∨ ∃ qo, Spec.C11.check (okStep w w' env s f (.engine (.openPosition v side m l b)))
+            = W.chk (decide (equityOf w v s qo < 0) || W.flow w'.log ENGINE s == equityOf w v s qo)
+                "funding-skipped-when-closing-by-reversal"
+        ∧ (NoZeroVamm w → SenderOutside w s →
+            equityOf w v s qo < 0 ∨ W.flow w'.log ENGINE s = equityOf w v s qo) := by
+  obtain ⟨x, pn, u, hxv, hpnl, hcore⟩ := open_core w w' env s f v side m l b h
+  simp only [Spec.C11.check, W.engineMsg, okStep, W.pos, W.preAt, fundingOwed_spec,
+    Bool.not_true, Bool.false_eq_true, ↓reduceIte, hxv]
   have hchk : ∀ tag, (readPosition w'.engine v s).chk = latestCum w.engine v →
       W.chk ((readPosition w'.engine v s).chk.toInt == (latestCum w.engine v).toInt) tag = [] := by
     intro tag hc
     exact chk_true _ _ (by rw [hc]; simp)
-  by_cases hss : (!W.hasPos w v s || ((readPosition w.engine v s).direction == sideToDirection side)) = true
-  · simp only [hss, ↓reduceIte]
+  by_cases hss : (!W.hasPos w v s || (readPosition w.engine v s).size.isZero
+      || ((readPosition w.engine v s).direction == sideToDirection side)) = true
+  · rw [if_pos hss]
     left
-    have hdir := sameSide_dir w env s v side hss
-    rcases hcore with ⟨_, hc, hge, hlt, _⟩ | ⟨hd, _⟩ | ⟨hd, _⟩
+    have hinc := sameSide_inc w env s v side hss
+    rcases hcore with ⟨_, hc, hge, hlt⟩ | ⟨⟨h1, h2⟩, _⟩ | ⟨⟨h1, h2⟩, _⟩
     · refine List.append_eq_nil_iff.2 ⟨hchk _ hc, chk_true _ _ ?_⟩
       unfold wantOf at hge hlt
       by_cases hneg : ((readPosition w.engine v s).margin : Int)
@@ -633,37 +742,73 @@ theorem check_open_split (w w' : World) (env : Env) (s : Nat) (f : Funds) (v : N
       · simp only [hneg, ↓reduceIte]
         rw [hge (by omega)]
         simp
-    · exact absurd hdir hd
-    · exact absurd hdir hd
-  · simp only [hss]
-    by_cases hb1 : (!(readPosition w'.engine v s).size.isZero &&
-        (readPosition w'.engine v s).direction == (readPosition w.engine v s).direction) = true
-    · -- reduced, still on the same side
-      simp only [hb1, ↓reduceIte]
-      left
-      have hnz : (readPosition w'.engine v s).size.value ≠ 0 := by
-        intro hz
-        simp [Integer.isZero, hz] at hb1
-      rcases hcore with ⟨_, hc, _⟩ | ⟨_, hc, _⟩ | ⟨_, hz, _⟩
-      · exact hchk _ hc
-      · exact hchk _ hc
-      · exact absurd hz hnz
-    · simp only [hb1]
-      by_cases hb2 : (readPosition w'.engine v s).size.isZero = true
-      · -- ended at size zero
-        simp only [hb2, ↓reduceIte]
-        right
-        have hz : (readPosition w'.engine v s).size.value = 0 := by simpa [Integer.isZero] using hb2
-        exact ⟨hz, rfl⟩
-      · simp only [hb2]
+    · rcases hinc with hi | hi
+      · exact absurd hi h1
+      · exact absurd hi h2
+    · rcases hinc with hi | hi
+      · exact absurd hi h1
+      · exact absurd hi h2
+  · rw [if_neg hss]
+    obtain ⟨hvv, hz, hd⟩ := not_sameSide w s v side hss
+    by_cases hvz : (readPosition w.engine v s).vamm = 0
+    · -- a record stored under address 0, the "no record" sentinel: the engine takes it for absent
+      have hv0 : v = 0 := hvv.symm.trans hvz
+      have hc : (readPosition w'.engine v s).chk = latestCum w.engine v := by
+        have hgd : (getPosition env w.engine v s side).direction = sideToDirection side := by
+          rw [MirrorP.getPosition_direction]
+          unfold MirrorP.gdir
+          rw [if_pos hvz]
+        rcases hcore with ⟨_, hc, _⟩ | ⟨⟨_, h2⟩, _⟩ | ⟨⟨_, h2⟩, _⟩
+        · exact hc
+        · exact absurd hgd h2
+        · exact absurd hgd h2
+      rw [hchk _ hc]
+      refine Or.elim (ite3_nil _ _ _) Or.inl (fun h0 => Or.inr ⟨_, h0, fun hnz => ?_⟩)
+      rw [hv0, hnz] at hxv
+      cases hxv
+    · -- a record of a real vAMM: the engine reads it as it is
+      have hgp : getPosition env w.engine v s side = readPosition w.engine v s := by
+        unfold getPosition
+        simp only []
+        rw [if_neg hvz]
+      rw [hgp] at hpnl hcore
+      rw [hpnl]
+      simp only []
+      have hnotinc : ¬ ((readPosition w.engine v s).size.isZero = true
+          ∨ (readPosition w.engine v s).direction = sideToDirection side) := by
+        intro hh
+        rcases hh with hh | hh
+        · exact hz hh
+        · exact hd hh
+      by_cases hred : pn > m * l / w.engine.cfg.decimals
+      · rw [if_pos (by simpa using hred)]
         left
-        have hnz : (readPosition w'.engine v s).size.value ≠ 0 := by
-          intro hz
-          simp [Integer.isZero, hz] at hb2
-        rcases hcore with ⟨_, hc, _⟩ | ⟨_, hc, _⟩ | ⟨_, hz, _⟩
+        rcases hcore with ⟨hinc, _⟩ | ⟨_, _, hc⟩ | ⟨_, hn, _⟩
+        · exact absurd hinc hnotinc
         · exact hchk _ hc
-        · exact hchk _ hc
-        · exact absurd hz hnz
+        · exact absurd hred hn
+      · rw [if_neg (by simpa using hred)]
+        rcases hcore with ⟨hinc, _⟩ | ⟨_, hp, _⟩ | ⟨_, _, qo, hqo, hsub⟩
+        · exact absurd hinc hnotinc
+        · exact absurd hp hred
+        · rw [hqo]
+          simp only []
+          rcases hsub with ⟨hz0, hE⟩ | ⟨hnz0, hc⟩
+          · refine Or.inr ⟨qo, ?_, fun _ hso => hE hso⟩
+            show (if (adiff (m * l / w.engine.cfg.decimals) qo / l == 0) = true then
+                W.chk (decide (equityOf w v s qo < 0) || W.flow w'.log ENGINE s == equityOf w v s qo)
+                  "funding-skipped-when-closing-by-reversal"
+              else W.chk ((readPosition w'.engine v s).chk.toInt == (latestCum w.engine v).toInt)
+                  "checkpoint-not-moved-on-trade") = _
+            rw [if_pos (by rw [hz0]; rfl)]
+          · left
+            show (if (adiff (m * l / w.engine.cfg.decimals) qo / l == 0) = true then
+                W.chk (decide (equityOf w v s qo < 0) || W.flow w'.log ENGINE s == equityOf w v s qo)
+                  "funding-skipped-when-closing-by-reversal"
+              else W.chk ((readPosition w'.engine v s).chk.toInt == (latestCum w.engine v).toInt)
+                  "checkpoint-not-moved-on-trade") = []
+            rw [if_neg (by simpa using hnz0)]
+            exact hchk _ hc
 
 theorem check_other (st : Step) (h1 : ∀ v side m l b, st.tx ≠ .engine (.openPosition v side m l b))
     (h2 : ∀ v, st.tx ≠ .engine (.payFunding v)) : Spec.C11.check st = [] := by
@@ -687,10 +832,12 @@ theorem check_other (st : Step) (h1 : ∀ v side m l b, st.tx ≠ .engine (.open
       · cases hm
     · rfl
 
-/-- **C11, clean form** -/
+/-- **C11, clean form.**  (The former sub-case hypothesis `w.engine.cfg.mmr ≠ 0` is gone: `Spec.C11.check`
+    now follows the engine's own case distinction, so an order against a zero-size record, and a reduce or
+    second leg that rounds the size to 0 — outcomes the final margin-ratio guard lets through only with a
+    maintenance ratio of 0 — are no longer taken for "closed by a reversal".) -/
 theorem sat_C11 (w : World) (env : Env) (s : Nat) (f : Funds) (tx : Tx)
-    (hbh : BufferHalf w) (hnf : NoFundsAttached w f tx) (hso : SenderOutside w s)
-    (hmmr : w.engine.cfg.mmr ≠ 0) :
+    (hbh : BufferHalf w) (hnf : NoFundsAttached w f tx) (hso : SenderOutside w s) (hnz : NoZeroVamm w) :
     Spec.C11.check (modelStep w env s f tx) = [] := by
   cases hx : applyTx w env s f tx with
   | error e =>
@@ -701,23 +848,21 @@ theorem sat_C11 (w : World) (env : Env) (s : Nat) (f : Funds) (tx : Tx)
     rw [modelStep_ok hx]
     by_cases ho : ∃ v side m l b, tx = .engine (.openPosition v side m l b)
     · obtain ⟨v, side, m, l, b, rfl⟩ := ho
-      rcases check_open_split w w' env s f v side m l b hx with h0 | ⟨hz, heq⟩
+      rcases check_open_split w w' env s f v side m l b hx with h0 | ⟨qo, heq, hE⟩
       · exact h0
       · rw [heq]
         apply chk_true
-        rcases open_core w w' env s f v side m l b hx with ⟨_, _, _, _, hnz⟩ | ⟨_, _, hnz⟩ | ⟨_, _, hE⟩
-        · exact absurd hz (hnz hmmr)
-        · exact absurd hz (hnz hmmr)
-        · rcases hE hso with h1 | h1
-          · simp [h1]
-          · simp [h1]
+        rcases hE hnz hso with h1 | h1
+        · simp [h1]
+        · simp [h1]
     · by_cases hp : ∃ v, tx = .engine (.payFunding v)
       · obtain ⟨v, rfl⟩ := hp
         exact check_payFunding w w' env s f v hbh (hnf v rfl) hx
       · exact check_other _ (fun v side m l b hh => ho ⟨v, side, m, l, b, hh⟩) (fun v hh => hp ⟨v, hh⟩)
 
-/-- **C11, general form**: only the reversal-payout clause can fail (zero-size outcomes of an order against
-    a stored opposite record while the maintenance ratio is 0; a sender that is one of the pools) -/
+/-- **C11, general form** — without the deployment facts `SenderOutside` and `NoZeroVamm`: only the
+    reversal-payout clause can fail (a sender that is one of the pools; a record stored under vAMM address 0,
+    `SatEWitness.c11_needs_noZeroVamm`) -/
 theorem C11_tags (w : World) (env : Env) (s : Nat) (f : Funds) (tx : Tx)
     (hbh : BufferHalf w) (hnf : NoFundsAttached w f tx) :
     ∀ tag ∈ Spec.C11.check (modelStep w env s f tx), tag ∈ ["funding-skipped-when-closing-by-reversal"] := by
@@ -731,7 +876,7 @@ theorem C11_tags (w : World) (env : Env) (s : Nat) (f : Funds) (tx : Tx)
     rw [modelStep_ok hx]
     by_cases ho : ∃ v side m l b, tx = .engine (.openPosition v side m l b)
     · obtain ⟨v, side, m, l, b, rfl⟩ := ho
-      rcases check_open_split w w' env s f v side m l b hx with h0 | ⟨hz, heq⟩
+      rcases check_open_split w w' env s f v side m l b hx with h0 | ⟨qo, heq, _⟩
       · rw [h0]; intro tag ht; cases ht
       · rw [heq]
         intro tag ht
